@@ -27,8 +27,8 @@ STRINGS = ["caf\u00e9 \u03c0/2", "\U0001f642", "a\\b\\n", "C:\\temp\\new", "ends
 SCALARS = {
     "int": [("9007199254740993", 9007199254740993), ("-9007199254740993", -9007199254740993), ("2**60+1", 2 ** 60 + 1), ("9223372036854775807", 2 ** 63 - 1), ("big", 9007199254740993), ("big-1", 9007199254740992),
             ("big*1", 9007199254740993), ("4611686018427387905", 2 ** 62 + 1), ("tau", 3), ("-tau*tau", -9), ("3", 3), ("-3", -3), ("007", 7), ("2*3+1", 7), ("2**5", 32), ("n0", 4), ("-n0", -4), ("n0*n0-1", 15), ("B0[1]", -6)],
-    "float": [("inf", 0.75), ("nan", 1.5), ("-inf", -0.75), ("infinity", 2.25), ("e", 2.0), ("2*e", 4.0), ("tau", 3.0), ("0.5", 0.5), ("-0.25", -0.25), ("1/4", 0.25), ("3", 3.0), ("2*x0", 5.0), ("x0", 2.5), ("n0", 4.0), ("n0/8", 0.5), ("1e-7", 1e-7), ("A0[3]", 4.25), ("-x0**2", 6.25)],
-    "complex": [("1+2j", 1 + 2j), ("-2j", -2j), ("2*z0", 2 - 4j), ("0.5", 0.5 + 0j), ("3", 3 + 0j), ("z0", 1 - 2j), ("x0", 2.5 + 0j), ("z0*z0", -3 - 4j)],
+    "float": [("1e10*1e10", 1e20), ("1e5**4", 1e20), ("4e18+6e18", 1e19), ("1e3", 1000.0), ("-2e0*5e18", -1e19), ("inf", 0.75), ("nan", 1.5), ("-inf", -0.75), ("infinity", 2.25), ("e", 2.0), ("2*e", 4.0), ("tau", 3.0), ("0.5", 0.5), ("-0.25", -0.25), ("1/4", 0.25), ("3", 3.0), ("2*x0", 5.0), ("x0", 2.5), ("n0", 4.0), ("n0/8", 0.5), ("1e-7", 1e-7), ("A0[3]", 4.25), ("-x0**2", 6.25)],
+    "complex": [("1e10*1e10", 1e20 + 0j), ("1e3", 1000 + 0j), ("1+2j", 1 + 2j), ("-2j", -2j), ("2*z0", 2 - 4j), ("0.5", 0.5 + 0j), ("3", 3 + 0j), ("z0", 1 - 2j), ("x0", 2.5 + 0j), ("z0*z0", -3 - 4j)],
     "bool": [("True", True), ("False", False)],
     "str": [('"a"', "a"), ('"with space"', "with space"), ('"x=1, y"', "x=1, y"), ('""', "")] + [('"%s"' % t, t) for t in STRINGS] + [("s0", "caf\u00e9 \\n")],
 }
